@@ -37,6 +37,9 @@ fn main() {
         if let Some(steps) = sc["steps"].as_array() {
             for (k, a) in steps.iter().enumerate() {
                 let mut ev = eng.step(a);
+                if ev["out"] == "skip" {
+                    continue; // action elided under this configuration: no event
+                }
                 ev["sc"] = id.clone();
                 ev["i"] = json!(k + 1);
                 vq::write_line(&mut w, &ev);
